@@ -240,7 +240,17 @@ def build(position, sub, k, layout, v, T):
         fn = f"main :: () -> i32 {{\n{body}\n    0\n}}"
     elif k.scope == "generic":
         arg = "i64" if T == "type" else str(v)
-        fn = f"gen :: (comptime n: {T}) {{\n{body}\n}}\nmain :: () -> i32 {{\n    gen({arg});\n    0\n}}"
+        # the comptime parameter under test sits among run-time parameters and other comptime parameters with other values:
+        # its value must come from its own argument whatever its position
+        decoy = (v + 3) % 200 + 1 if T != "type" else 7
+        shape = (v + len(body) + len(position)) % 4
+        params, args = [
+            (f"comptime n: {T}", arg),
+            (f"r0: i64, comptime n: {T}", f"5, {arg}"),
+            (f"r0: i64, comptime n: {T}, comptime z: usize", f"5, {arg}, {decoy}"),
+            (f"comptime z: usize, r0: i64, comptime n: {T}, r1: i64", f"{decoy}, 5, {arg}, 6"),
+        ][shape]
+        fn = f"gen :: ({params}) {{\n{body}\n}}\nmain :: () -> i32 {{\n    gen({args});\n    0\n}}"
     else:
         arg = "i64" if T == "type" else str(v)
         fn = f"run :: (k: {T}) {{\n{body}\n}}\nmain :: () -> i32 {{\n    run({arg});\n    0\n}}"
